@@ -153,6 +153,19 @@ def run(ctx):
                 elif finite(ty):
                     cls = 'F'
                     nF += 1
+            if cls is None:
+                # a loop that takes a permit from the search budget on every round (`let permit = budget.next().unwrap(); permit?;`):
+                # a block of the loop calls next() on the budget iterator and that block lies on every way round the loop
+                body_blocks = [n for n in range(len(b.blocks)) if h in dom.get(n, ()) and h in b.reachable(n)]
+                for n in body_blocks:
+                    t2 = b.term(n)
+                    if t2['k'] == 'call' and strip_generics(t2.get('decl') or '') == 'std::iter::Iterator::next' and n != h:
+                        ty2 = (t2.get('argtys') or [''])[0]
+                        ty2 = ty2[5:] if ty2.startswith('&mut ') else ty2
+                        if budget_ty in ty2 and all(n in dom.get(src, ()) for src in range(len(b.blocks)) if h in b.succs()[src] and h in dom.get(src, ())):
+                            cls = 'B'
+                            nB += 1
+                            break
             if cls is None and (b.nid in LOOP_OK or b.nid in KNOWN_HEAVY):
                 cls = 'L'
                 nL += 1
